@@ -234,6 +234,38 @@ func (workingMem *WorkingMemory) Clone(cloneTable *pkg.CloneTable) (*WorkingMemo
 	return nil, fmt.Errorf("clone not equals the origin")
 }
 
+// Prune drops every expression, expression atom and variable that is not part of a rule entry
+// of the knowledge base. The parser registers nodes in the working memory while it reads a rule,
+// before it is known whether the rule is accepted; nodes of a rejected rule (duplicate name,
+// syntax error) would otherwise stay behind and can neither be cloned nor stored. The nodes
+// private to a removed rule are dropped as well: the rule is never evaluated again.
+func (workingMem *WorkingMemory) Prune(knowledgeBase *KnowledgeBase) {
+	live := &Catalog{}
+	for _, entry := range knowledgeBase.RuleEntries {
+		if entry.WhenScope != nil {
+			entry.WhenScope.MakeCatalog(live)
+		}
+		if entry.ThenScope != nil {
+			entry.ThenScope.MakeCatalog(live)
+		}
+	}
+	for key, expr := range workingMem.expressionSnapshotMap {
+		if _, ok := live.Data[expr.AstID]; !ok {
+			delete(workingMem.expressionSnapshotMap, key)
+		}
+	}
+	for key, exprAtm := range workingMem.expressionAtomSnapshotMap {
+		if _, ok := live.Data[exprAtm.AstID]; !ok {
+			delete(workingMem.expressionAtomSnapshotMap, key)
+		}
+	}
+	for key, variable := range workingMem.variableSnapshotMap {
+		if _, ok := live.Data[variable.AstID]; !ok {
+			delete(workingMem.variableSnapshotMap, key)
+		}
+	}
+}
+
 // IndexVariables will index all expression and expression atoms that contains a speciffic variable name
 func (workingMem *WorkingMemory) IndexVariables() {
 	if AstLog.Level <= logger.DebugLevel {
